@@ -134,9 +134,17 @@ def provenance(rng, t, steps=None, reorder=False):
     n = int(rng.integers(1, 3)) if steps is None else steps
     with probe.oracle():
         for _ in range(n):
-            k = int(rng.integers(0, 15))
+            k = int(rng.integers(0, 17))
             try:
-                if k >= 13:
+                if k >= 15:
+                    # a canonical train whose owner then assigns NEW values to one core (a solver's micro step, a user editing a core):
+                    # the train is far from canonical afterwards and no method was told about it
+                    (t.ortho_left if k == 15 else t.ortho_right)()
+                    j = int(rng.integers(0, t.order))
+                    cj = t.cores[j]
+                    new = rng.standard_normal(cj.shape) * (float(np.max(np.abs(cj))) or 1.0)
+                    t.cores[j] = new.astype(cj.dtype) if cj.dtype.kind in 'fc' else new
+                elif k >= 13:
                     # nearly canonical: an orthonormalised train whose cores were rescaled column by column (row by row) by factors
                     # 1 + O(1e-6..1e-9) afterwards - orthogonal but not normalised to working precision (a canonical train stored in
                     # single precision and read back, or normalised with an approximate norm)
